@@ -1,4 +1,6 @@
 import Driver.Loop
+import Driver.C12
+import Driver.C16
 
 /-- handlers of this executable; each builder adds `Driver.Cxx.handle` here -/
-def main : IO Unit := Driver.runMain []
+def main : IO Unit := Driver.runMain [Driver.C12.handle, Driver.C16.handle]
